@@ -37,11 +37,11 @@ from __future__ import annotations
 
 import ast
 import builtins
-from typing import Dict, FrozenSet, List, Optional, Set, Tuple
+from typing import Any, Dict, FrozenSet, List, Optional, Set, Tuple
 
 from engines import absdom, c27facts as cf, pyfacts as pf
 from engines import sqlfront as sf
-from engines.common import AnalysisError, Ctx
+from engines.common import AnalysisError, AnchorRemoved, Ctx
 from engines.sqlast import N, text
 
 META = dict(
@@ -66,102 +66,330 @@ def _int_tuple(e: ast.expr) -> Optional[Set[int]]:
     return None
 
 
+LEVEL_NAMES = {'DEBUG': 10, 'INFO': 20, 'WARNING': 30, 'WARN': 30, 'ERROR': 40, 'CRITICAL': 50, 'FATAL': 50, 'NOTSET': 0}
+_DECLINES: List[str] = []
+
+
+def _defer(msg: str) -> None:
+    """Something this run cannot decide: remembered; the other rules still run; the run ends as ANALYSIS-ERROR (exit 2) unless a
+    violation with positive evidence was found."""
+    if msg not in _DECLINES:
+        _DECLINES.append(msg)
+
+
+def _docless(body: List[ast.stmt]) -> List[ast.stmt]:
+    return [s for s in body if not (isinstance(s, ast.Expr) and isinstance(s.value, ast.Constant))]
+
+
+def _module_const(m: pf.Module, e: ast.expr) -> ast.expr:
+    """Follow a bare module-level name to its (single) defining expression."""
+    for _ in range(3):
+        if isinstance(e, ast.Name):
+            try:
+                e = m.global_assign(e.id)
+            except AnalysisError:
+                return e
+        else:
+            break
+    return e
+
+
+def _truthy_level(m: pf.Module, e: Optional[ast.expr], code: Optional[int]) -> Optional[bool]:
+    """Truthiness of the value the classifier returns: a logging level (by its name, however imported), an int / None literal, or
+    `<module dict>.get(<error code>, <default>)`.  None = not resolved."""
+    if e is None:
+        return False
+    if isinstance(e, ast.Constant):
+        return bool(e.value)
+    d = pf.dotted(e)
+    if d is not None:
+        last = d.split('.')[-1]
+        if last in LEVEL_NAMES and ('.' in d or last in m.imports()):
+            return LEVEL_NAMES[last] != 0
+        if '.' not in d:
+            v = _module_const(m, e)
+            if v is not e:
+                return _truthy_level(m, v, code)
+        return None
+    if isinstance(e, ast.Call) and isinstance(e.func, ast.Attribute) and e.func.attr == 'get' and len(e.args) == 2 and not e.keywords:
+        table = _module_const(m, e.func.value)
+        if isinstance(table, ast.Dict) and all(isinstance(k, ast.Constant) for k in table.keys):
+            for k, v in zip(table.keys, table.values):
+                if code is not None and k.value == code:
+                    return _truthy_level(m, v, code)
+            return _truthy_level(m, e.args[1], code)
+    return None
+
+
+def _classifier_table(ctx: Ctx, m: pf.Module) -> Dict[str, Set[int]]:
+    """Evaluate exception_log_level_if_retryable over the finite abstract domain {OperationalError, InternalError} x {every error code
+    the function or the statement mentions, one other code} + other MySQL error + non-MySQL error: which (class, code) get a truthy
+    answer.  The function's tests are interpreted (isinstance through the import table, `exc.args[0] in <tuple / module constant>`,
+    `==`), locals are expanded; any other test declines."""
+    cl = m.func(CLASSIFIER)
+    ctx.need(cl.args.args, 'exception_log_level_if_retryable: no parameter')
+    nm = cl.args.args[0].arg
+    body = _docless(cl.body)
+    notb = _Tables(set(), set())
+    notb.names = {}
+    atoms = absdom.collect_test_atoms(body)
+    exp = {absdom.atom_key(a): pf.expand_locals(cl, a) for a in atoms}
+    mentioned: Set[int] = set(WANT_INTERNAL) | set(WANT_OPERATIONAL)
+    for a in exp.values():
+        for sub in absdom.bool_atoms(a):
+            ct = _code_test(sub, nm)
+            if ct is not None:
+                cs = _code_set(m, ct[0], ct[1], notb)
+                ctx.need(cs is not None, f'exception_log_level_if_retryable: the code set of `{pf.nsrc(sub)}` is not a literal / module constant')
+                mentioned |= cs
+    other = max(mentioned) + 100000
+    accepted: Dict[str, Set[int]] = {'OperationalError': set(), 'InternalError': set(), 'OtherMySQL': set(), 'NonMySQL': set()}
+
+    def value(a: ast.AST, cls: str, code: int) -> bool:
+        a = exp.get(absdom.atom_key(a), a)
+        if isinstance(a, (ast.BoolOp, ast.UnaryOp)):
+            return absdom.eval_bool(a, lambda x: value(x, cls, code))
+        ct = _code_test(a, nm)
+        if ct is not None:
+            cs = _code_set(m, ct[0], ct[1], notb)
+            if cs is None:
+                raise AnalysisError(f'exception_log_level_if_retryable: `{pf.nsrc(a)}` not resolved')
+            r = code in cs
+            return (not r) if isinstance(ct[0], (ast.NotEq, ast.NotIn)) else r
+        if isinstance(a, ast.Call) and pf.dotted(a.func) == 'isinstance' and len(a.args) == 2 and pf.nsrc(a.args[0]) == nm:
+            tk = _type_kinds(m, a.args[1])
+            if tk is None:
+                raise AnalysisError(f'exception_log_level_if_retryable: class in `{pf.nsrc(a)}` not resolved')
+            may, full = tk
+            k = (cls, True)
+            if k in full or (cls, False) in full:
+                return True
+            if k not in may and (cls, False) not in may:
+                return False
+        raise AnalysisError(f'exception_log_level_if_retryable: test `{pf.nsrc(a)}` is not interpreted')
+
+    for cls in accepted:
+        for code in sorted(mentioned) + [other]:
+            o = absdom.walk_block(body, lambda a, cls=cls, code=code: value(a, cls, code))
+            ctx.need(o.kind in ('return', 'fall'), f'exception_log_level_if_retryable: a path ends in `{o.kind}`')
+            ret = o.node.value if (o.kind == 'return' and o.node is not None) else None
+            t = _truthy_level(m, ret, code)
+            ctx.need(t is not None, f'exception_log_level_if_retryable: truthiness of `{pf.nsrc(ret) if ret is not None else None}` not resolved')
+            if t:
+                accepted[cls].add(code if code != other else -1)
+    return accepted
+
+
+def _classifier_polarity(w: pf.FuncDef, exc_name: Optional[str], a: ast.AST) -> Optional[bool]:
+    """a is true exactly when the classifier's answer for the caught exception is truthy (True) / falsy (False); None: another test.
+    Sees through the walrus, a local holding the answer, `is None` / `is not None`, `not`, bool()."""
+    cur, pol = a, True
+    for _ in range(8):
+        if isinstance(cur, ast.NamedExpr):
+            cur = cur.value
+        elif isinstance(cur, ast.UnaryOp) and isinstance(cur.op, ast.Not):
+            cur, pol = cur.operand, not pol
+        elif isinstance(cur, ast.Compare) and len(cur.ops) == 1 and isinstance(cur.comparators[0], ast.Constant) and cur.comparators[0].value is None:
+            if isinstance(cur.ops[0], (ast.Is, ast.Eq)):
+                cur, pol = cur.left, not pol
+            elif isinstance(cur.ops[0], (ast.IsNot, ast.NotEq)):
+                cur = cur.left
+            else:
+                return None
+        elif isinstance(cur, ast.Call) and isinstance(cur.func, ast.Name) and cur.func.id == 'bool' and len(cur.args) == 1:
+            cur = cur.args[0]
+        elif isinstance(cur, ast.Name):
+            d = pf.single_def(w, cur.id)
+            if not isinstance(d, ast.expr):
+                return None
+            cur = d
+        elif isinstance(cur, ast.Call) and (pf.dotted(cur.func) or '').split('.')[-1] == CLASSIFIER and len(cur.args) == 1 and not cur.keywords \
+                and isinstance(cur.args[0], ast.Name) and cur.args[0].id == exc_name:
+            return pol
+        else:
+            return None
+    return None
+
+
+def _is_increment(st: ast.stmt) -> bool:
+    """`x += k`  or  `x = x + k` / `x = k + x`."""
+    if isinstance(st, ast.AugAssign) and isinstance(st.op, ast.Add) and isinstance(st.target, ast.Name):
+        return True
+    if isinstance(st, ast.Assign) and len(st.targets) == 1 and isinstance(st.targets[0], ast.Name) and isinstance(st.value, ast.BinOp) and isinstance(st.value.op, ast.Add):
+        return any(isinstance(x, ast.Name) and x.id == st.targets[0].id for x in (st.value.left, st.value.right))
+    return False
+
+
 def r1(ctx: Ctx, m: pf.Module) -> None:
-    op = _int_tuple(m.global_assign('operational_error_retry_codes'))
-    it = _int_tuple(m.global_assign('internal_error_retry_codes'))
-    ctx.need(op is not None and it is not None, 'retry code tables are not literal tuples')
-    ctx.check(op == WANT_OPERATIONAL, 'R1', f'{DB}::operational_error_retry_codes', f'retryable OperationalError codes are {sorted(op)}; the statement allows connection limit 1040, deadlock 1213, '
-              f'cannot connect 2003, lost connection 2013 only (difference: +{sorted(op - WANT_OPERATIONAL)} -{sorted(WANT_OPERATIONAL - op)})', m.path, 0)
-    ctx.check(it == WANT_INTERNAL, 'R1', f'{DB}::internal_error_retry_codes', f'retryable InternalError codes are {sorted(it)}; the statement allows lock wait timeout 1205 only', m.path, 0)
-    cl = m.func('exception_log_level_if_retryable')
-    # shape: sequence of `if isinstance(exc, T) and exc.args[0] in TABLE: return <level>` then `return None`
-    arms = []
-    ok = True
-    for st in cl.body:
-        if isinstance(st, ast.Expr) and isinstance(st.value, ast.Constant):
-            continue
-        if isinstance(st, ast.If):
-            t = st.test
-            good = isinstance(t, ast.BoolOp) and isinstance(t.op, ast.And) and len(t.values) == 2 and isinstance(t.values[0], ast.Call) and pf.dotted(t.values[0].func) == 'isinstance' \
-                and isinstance(t.values[1], ast.Compare) and isinstance(t.values[1].ops[0], ast.In) and pf.nsrc(t.values[1].left) == 'exc.args[0]' \
-                and len(st.body) == 1 and isinstance(st.body[0], ast.Return) and not st.orelse
-            if not good:
-                ok = False
-                break
-            arms.append((pf.nsrc(t.values[0].args[1]), pf.nsrc(t.values[1].comparators[0]), st.body[0].value))
-        elif isinstance(st, ast.Return):
-            ok = ok and isinstance(st.value, ast.Constant) and st.value.value is None and st is cl.body[-1]
-        else:
-            ok = False
-    ctx.need(ok, 'exception_log_level_if_retryable: shape not recognised')
-    got = sorted((a, b) for a, b, _ in arms)
-    ctx.check(got == [('pymysql.err.InternalError', 'internal_error_retry_codes'), ('pymysql.err.OperationalError', 'operational_error_retry_codes')], 'R1', f'{DB}::exception_log_level_if_retryable::arms',
-              f'the classifier pairs exception classes and code tables as {got}', m.path, cl.lineno)
-    # returned levels are truthy
-    lvl_dict = m.global_assign('operational_error_log_level')
-    vals: List[ast.expr] = []
-    for _, _, v in arms:
-        if isinstance(v, ast.Call) and pf.nsrc(v.func) == 'operational_error_log_level.get':
-            vals.append(v.args[1])
-            if isinstance(lvl_dict, ast.Dict):
-                vals += list(lvl_dict.values)
-        else:
-            vals.append(v)
-    truthy = all(LOGLEVELS.get(pf.nsrc(v), None) not in (None, 0) for v in vals)
-    ctx.check(truthy, 'R1', f'{DB}::exception_log_level_if_retryable::truthy levels', f'a retryable error is mapped to a falsy level ({[pf.nsrc(v) for v in vals]}): the wrapper would re-raise it', m.path, cl.lineno)
+    acc = _classifier_table(ctx, m)
+    cl = m.func(CLASSIFIER)
+
+    def show(s: Set[int]) -> List[Any]:
+        return sorted('any other code' if c == -1 else c for c in s) if all(c != -1 for c in s) else sorted(c for c in s if c != -1) + ['any other code']
+    op, it = acc['OperationalError'], acc['InternalError']
+    ctx.check(op == WANT_OPERATIONAL, 'R1', f'{DB}::operational_error_retry_codes', f'retryable OperationalError codes are {show(op)}; the statement allows connection limit 1040, deadlock 1213, '
+              f'cannot connect 2003, lost connection 2013 only (difference: +{show(op - WANT_OPERATIONAL)} -{show(WANT_OPERATIONAL - op)}; a code missing here is either not in the table or mapped to a falsy level, '
+              'which the wrapper re-raises)', m.path, cl.lineno)
+    ctx.check(it == WANT_INTERNAL, 'R1', f'{DB}::internal_error_retry_codes', f'retryable InternalError codes are {show(it)}; the statement allows lock wait timeout 1205 only '
+              f'(difference: +{show(it - WANT_INTERNAL)} -{show(WANT_INTERNAL - it)})', m.path, cl.lineno)
+    ctx.check(not acc['OtherMySQL'] and not acc['NonMySQL'], 'R1', f'{DB}::exception_log_level_if_retryable::arms',
+              f'the classifier also accepts {"other MySQL error classes" if acc["OtherMySQL"] else ""} {"non-MySQL exceptions" if acc["NonMySQL"] else ""}: they would be retried', m.path, cl.lineno)
+    ctx.ok('R1', f'{DB}::exception_log_level_if_retryable::truthy levels', 'every accepted (class, code) is answered with a truthy level (evaluated per code, included in the two code-set instances)')
     # the wrapper's decision table
+    outer = m.func('retry_transient_mysql_errors')
     w = m.func('retry_transient_mysql_errors.wrapper')
     loops = [s for s in w.body if isinstance(s, ast.While)]
     ctx.need(len(loops) == 1 and isinstance(loops[0].test, ast.Constant) and loops[0].test.value is True, 'retry wrapper: while True not found')
-    tr = loops[0].body[0]
-    ctx.need(isinstance(tr, ast.Try) and len(tr.body) == 1 and isinstance(tr.body[0], ast.Return) and len(tr.handlers) == 1 and pf.nsrc(tr.handlers[0].type) == 'Exception', 'retry wrapper: try shape')
+    trs = [s for s in loops[0].body if isinstance(s, ast.Try)]
+    ctx.need(len(trs) == 1, 'retry wrapper: try not found in the loop')
+    tr = trs[0]
+    before = loops[0].body[:loops[0].body.index(tr)]
+    ctx.need(not any(isinstance(x, (ast.Return, ast.Raise, ast.Break, ast.Continue)) for b in before for x in ast.walk(b)), 'retry wrapper: control flow before the try')
+    ctx.need(len(tr.handlers) == 1 and tr.handlers[0].type is not None and pf.nsrc(tr.handlers[0].type) == 'Exception' and not tr.finalbody and not tr.orelse, 'retry wrapper: try shape')
     h = tr.handlers[0]
     atoms = absdom.collect_test_atoms(h.body)
-    ctx.need(len(atoms) == 1, f'retry wrapper: expected one decision predicate, found {[absdom.atom_key(a) for a in atoms]}')
-    a = atoms[0]
-    is_cls = (isinstance(a, ast.NamedExpr) and pf.nsrc(a.value) == f'exception_log_level_if_retryable({h.name})') or pf.nsrc(a) == f'exception_log_level_if_retryable({h.name})'
-    ctx.need(is_cls, f'retry wrapper decides on `{pf.nsrc(a)}`')
+    pols = {absdom.atom_key(a): _classifier_polarity(w, h.name, a) for a in atoms}
+    ctx.need(atoms and all(v is not None for v in pols.values()), f'retry wrapper decides on {[k for k, v in pols.items() if v is None] or "nothing"}')
     res = {}
+    nodes = {}
     for v in (False, True):
-        o = absdom.walk_block(h.body, lambda _a, v=v: v)
+        o = absdom.walk_block(h.body, lambda a, v=v: v if pols[absdom.atom_key(a)] else not v)
         res[v] = o.kind
-    ctx.check(res == {False: 'raise', True: 'fall'}, 'R1', f'{DB}::retry_transient_mysql_errors::decision', f'classifier falsy -> {res[False]}, truthy -> {res[True]}; expected re-raise / retry', m.path, h.lineno)
-    after = loops[0].body[1:]
-    ok = len(after) == 2 and pf.nsrc(after[0]) == 'tries += 1' and pf.nsrc(after[1]) == 'await sleep_before_try(tries)'
-    ctx.check(ok, 'R1', f'{DB}::retry_transient_mysql_errors::backoff', f'after a retryable error the loop runs {[pf.nsrc(x) for x in after]}; expected tries += 1; await sleep_before_try(tries)', m.path, loops[0].lineno)
-    ret = tr.body[0].value
-    ctx.check(isinstance(ret, ast.Await) and pf.nsrc(ret.value) == 'f(*args, **kwargs)', 'R1', f'{DB}::retry_transient_mysql_errors::re-invokes f', 'the retried call is not f(*args, **kwargs)', m.path, tr.lineno)
+        nodes[v] = o.node
+    good = res[False] == 'raise' and res[True] in ('fall', 'continue')
+    if good and nodes[False] is not None and nodes[False].exc is not None and not (isinstance(nodes[False].exc, ast.Name) and nodes[False].exc.id == h.name):
+        _defer(f'retry wrapper: a non-retryable error leaves as `{pf.nsrc(nodes[False])}`, not as the caught exception')
+    ctx.check(good, 'R1', f'{DB}::retry_transient_mysql_errors::decision', f'classifier falsy -> {res[False]}, truthy -> {res[True]}; expected re-raise / retry', m.path, h.lineno)
+    after = loops[0].body[loops[0].body.index(tr) + 1:]
+    if res[True] == 'continue':
+        after = []
+    top_exit = [x for x in after if isinstance(x, (ast.Return, ast.Break, ast.Raise))]
+    nested_exit = [x for b in after for x in ast.walk(b) if isinstance(x, (ast.Return, ast.Break, ast.Raise))]
+    canonical = len(after) == 2 and _is_increment(after[0]) and isinstance(after[1], ast.Expr) and isinstance(after[1].value, ast.Await)
+    if top_exit:
+        ctx.bad('R1', f'{DB}::retry_transient_mysql_errors::backoff', f'after a retryable error the loop body runs `{pf.nsrc(top_exit[0])}`: the operation is not attempted again', m.path, loops[0].lineno)
+    elif nested_exit and not canonical:
+        _defer('retry wrapper: the statements after the try contain a conditional exit from the retry loop; whether a retryable error is always retried is not decided')
+    else:
+        ctx.ok('R1', f'{DB}::retry_transient_mysql_errors::backoff', [pf.nsrc(x) for x in after])
+    # what is re-invoked
+    fname = outer.args.args[0].arg if outer.args.args else None
+    va, kw = (w.args.vararg.arg if w.args.vararg else None), (w.args.kwarg.arg if w.args.kwarg else None)
+    calls = [c for b in tr.body for c in ast.walk(b) if isinstance(c, ast.Call) and isinstance(c.func, ast.Name) and c.func.id == fname]
+    cons = f'{DB}::retry_transient_mysql_errors::re-invokes f'
+    if len(calls) != 1 or fname is None:
+        _defer('retry wrapper: the call of the wrapped function inside the try was not recognised')
+    else:
+        c = calls[0]
+        full = len(c.args) == 1 and isinstance(c.args[0], ast.Starred) and isinstance(c.args[0].value, ast.Name) and c.args[0].value.id == va and \
+            len(c.keywords) == 1 and c.keywords[0].arg is None and isinstance(c.keywords[0].value, ast.Name) and c.keywords[0].value.id == kw
+        ctx.check(full, 'R1', cons, f'the retried call is `{pf.nsrc(c)}`, not {fname}(*{va}, **{kw}): a retry does not repeat the operation the caller asked for', m.path, tr.lineno)
 
 
 def _retried(fn: pf.FuncDef) -> bool:
-    return any((pf.dotted(d) or '') == 'retry_transient_mysql_errors' for d in fn.decorator_list)
+    return any((pf.dotted(d) or '').split('.')[-1] == 'retry_transient_mysql_errors' for d in fn.decorator_list)
+
+
+def _start_withs(fn: pf.FuncDef, receivers: Set[str]) -> List[ast.AsyncWith]:
+    out = []
+    for w in ast.walk(fn):
+        if isinstance(w, (ast.AsyncWith, ast.With)):
+            for i in w.items:
+                c = i.context_expr
+                if isinstance(c, ast.Call) and isinstance(c.func, ast.Attribute) and c.func.attr == 'start' and isinstance(c.func.value, ast.Name) and c.func.value.id in receivers:
+                    out.append(w)
+    return out
+
+
+def _db_opening_methods(m: pf.Module) -> Tuple[Dict[str, pf.FuncDef], Set[str]]:
+    """Database methods that open a transaction: `self.start()` directly, or through another such method."""
+    dbc = m.cls('Database')
+    meths = {f.name: f for f in dbc.body if isinstance(f, (ast.AsyncFunctionDef, ast.FunctionDef))}
+    opening: Set[str] = set()
+    changed = True
+    while changed:
+        changed = False
+        for n, f in meths.items():
+            if n in opening or n == 'start' or not f.args.args:
+                continue
+            me = f.args.args[0].arg
+            for c in pf.walk_shallow(f):
+                if isinstance(c, ast.Call) and isinstance(c.func, ast.Attribute) and isinstance(c.func.value, ast.Name) and c.func.value.id == me and (c.func.attr == 'start' or c.func.attr in opening):
+                    opening.add(n)
+                    changed = True
+                    break
+    return meths, opening
 
 
 def r2(ctx: Ctx, m: pf.Module) -> None:
+    tr_outer = m.func('transaction')
+    tf = m.func('transaction.transformer')
     tw = m.func('transaction.transformer.wrapper')
     cons = f'{DB}::transaction'
-    decos = [pf.dotted(d.func) if isinstance(d, ast.Call) else pf.dotted(d) for d in tw.decorator_list]
-    body = [s for s in tw.body if not (isinstance(s, ast.Expr) and isinstance(s.value, ast.Constant))]
-    ok = 'retry_transient_mysql_errors' in decos and len(body) == 1 and isinstance(body[0], ast.AsyncWith) and pf.nsrc(body[0].items[0].context_expr).startswith('db.start(') and \
-        len(body[0].body) == 1 and isinstance(body[0].body[0], ast.Return) and pf.nsrc(body[0].body[0].value) == 'await fun(tx, *args, **kwargs)'
-    ctx.check(ok, 'R2', cons + '::retry outside start', 'the retry wrapper is not applied around `async with db.start() as tx: return await fun(tx, ...)`: a retry would re-run statements inside a '
-              'transaction that already failed, or commit a partial attempt', m.path, tw.lineno)
-    dbc = m.cls('Database')
+    dbname = tr_outer.args.args[0].arg if tr_outer.args.args else None
+    fun = tf.args.args[0].arg if tf.args.args else None
+    retried = _retried(tw)
+    body = _docless(tw.body)
+    withs = _start_withs(tw, {dbname} if dbname else set())
+    canonical = False
+    if retried and len(body) == 1 and isinstance(body[0], ast.AsyncWith) and withs == [body[0]] and isinstance(body[0].items[0].optional_vars, ast.Name):
+        tx = body[0].items[0].optional_vars.id
+        calls = [c for c in ast.walk(body[0]) if isinstance(c, ast.Call) and isinstance(c.func, ast.Name) and c.func.id == fun]
+        inner = [s for s in ast.walk(body[0]) if isinstance(s, (ast.Try, ast.While, ast.For, ast.AsyncFor))]
+        canonical = len(calls) == 1 and bool(calls[0].args) and isinstance(calls[0].args[0], ast.Name) and calls[0].args[0].id == tx and not inner
+    if canonical:
+        ctx.ok('R2', cons + '::retry outside start', 'retry decorator around `async with <db>.start() as tx: .. fun(tx, ..)`')
+    else:
+        # positive evidence for "the retry is not around the whole transaction"
+        why = None
+        inside_retry = [c for w_ in withs for c in ast.walk(w_) if isinstance(c, ast.Call) and (pf.dotted(c.func) or '').split('.')[-1] == 'retry_transient_mysql_errors']
+        if inside_retry:
+            why = f'`{pf.nsrc(inside_retry[0])[:80]}` applies the retry INSIDE `async with {dbname}.start()`: a retry re-runs the statements in a transaction that already failed (after a deadlock InnoDB has rolled it back)'
+        for w_ in withs:
+            for t in (x for x in ast.walk(w_) if isinstance(x, ast.Try)):
+                if not any(isinstance(c, ast.Call) and isinstance(c.func, ast.Name) and c.func.id == fun for b in t.body for c in ast.walk(b)):
+                    continue
+                for h in t.handlers:
+                    atoms = absdom.collect_test_atoms(h.body)
+                    if len(atoms) > 6:
+                        continue
+                    keys = [absdom.atom_key(a) for a in atoms]
+                    for val in absdom.valuations(keys):
+                        o = absdom.walk_block(h.body, lambda a, val=val: val[absdom.atom_key(a)])
+                        if o.kind != 'raise' and why is None:
+                            why = (f'inside `async with {dbname}.start()` the handler `except {pf.nsrc(h.type) if h.type is not None else ""}` (line {h.lineno}) can end without raising '
+                                   f'(`{o.kind}`): the error of the transaction body is swallowed while the transaction is open, the `async with` exits normally and COMMITs the partial attempt before it is run again')
+        if why is None and not retried and withs and not any(isinstance(x, (ast.While, ast.For, ast.Try)) for x in ast.walk(tw)) and \
+                not any((pf.dotted(d.func) if isinstance(d, ast.Call) else pf.dotted(d) or '').split('.')[-1] not in ('wraps',) for d in tw.decorator_list):
+            why = 'transaction() does not retry at all: the wrapper opens the transaction and runs the function once, without the retry decorator'
+        if why is not None:
+            ctx.bad('R2', cons + '::retry outside start', 'the retry wrapper is not applied around `async with db.start() as tx: return await fun(tx, ...)`: ' + why, m.path, tw.lineno)
+        else:
+            _defer('transaction(): the shape of transformer.wrapper is not recognised; whether the retry encloses the whole transaction is not decided')
+    meths, opening = _db_opening_methods(m)
     n = 0
-    for fn in dbc.body:
-        if not isinstance(fn, (ast.AsyncFunctionDef, ast.FunctionDef)):
-            continue
+    for name, fn in meths.items():
         is_gen = any(isinstance(x, (ast.Yield, ast.YieldFrom)) for x in pf.walk_shallow(fn))
-        starts = [w for w in pf.walk_shallow(fn) if isinstance(w, ast.AsyncWith) and any(pf.nsrc(i.context_expr).startswith('self.start(') for i in w.items)]
-        if _retried(fn):
-            n += 1
-            c2 = f'{DB}::Database.{fn.name}'
-            ctx.check(not is_gen, 'R2', c2 + '::not a generator', 'an async generator is retried: rows already yielded would be yielded again', m.path, fn.lineno)
-            if fn.name in ('async_init',):
-                continue
-            inner_tx = bool(starts) or any(isinstance(c, ast.Call) and pf.dotted(c.func) in ('self.execute_and_fetchone',) for c in ast.walk(fn))
-            params = [a.arg for a in fn.args.args]
-            ctx.check(inner_tx and 'tx' not in params, 'R2', c2 + '::owns its transaction', 'a retried method does not open its own transaction inside the retry (or takes an open one)', m.path, fn.lineno)
+        if not _retried(fn):
+            continue
+        n += 1
+        c2 = f'{DB}::Database.{name}'
+        ctx.check(not is_gen, 'R2', c2 + '::not a generator', 'an async generator is retried: rows already yielded would be yielded again', m.path, fn.lineno)
+        if name in ('async_init',):
+            continue
+        params = fn.args.args[1:] + fn.args.kwonlyargs
+        takes_tx = [a.arg for a in params if a.annotation is not None and 'Transaction' in pf.nsrc(a.annotation)] or [a.arg for a in params if a.arg == 'tx']
+        if takes_tx:
+            ctx.bad('R2', c2 + '::owns its transaction', f'a retried method takes an open transaction (`{takes_tx[0]}`): the retry re-executes on a connection whose transaction is in an unknown state', m.path, fn.lineno)
+        elif name in opening:
+            ctx.ok('R2', c2 + '::owns its transaction', 'opens its transaction inside the retry')
+        else:
+            direct = [c for c in ast.walk(fn) if isinstance(c, ast.Call) and isinstance(c.func, ast.Attribute) and c.func.attr in cf.EXEC_ATTRS]
+            if direct:
+                ctx.bad('R2', c2 + '::owns its transaction', f'a retried method does not open its own transaction inside the retry: `{pf.nsrc(direct[0])[:80]}` issues the statement on a cursor outside any '
+                        'Transaction (no START TRANSACTION / COMMIT / ROLLBACK discipline of Transaction applies to it)', m.path, fn.lineno)
+            else:
+                _defer(f'Database.{name}: retried, but neither `self.start()` nor a statement execution was found in it')
     ctx.need(n >= 8, f'only {n} retried Database methods found')
     # whole-repository: nothing that takes an open Transaction is retried directly
     dirs = ['batch', 'gear', 'auth', 'ci', 'monitoring', 'web_common'] if ctx.tier == 'thorough' else ['batch/batch', 'gear/gear', 'auth/auth', 'ci/ci']
@@ -171,7 +399,7 @@ def r2(ctx: Ctx, m: pf.Module) -> None:
         if 'retry_transient_mysql_errors' not in mm.src:
             continue
         for q, fn in mm.functions():
-            if _retried(fn) and rel != DB or (rel == DB and _retried(fn)):
+            if _retried(fn):
                 k += 1
                 params = [a.arg for a in fn.args.args]
                 anns = [pf.nsrc(a.annotation) for a in fn.args.args if a.annotation is not None]
@@ -183,59 +411,362 @@ def r2(ctx: Ctx, m: pf.Module) -> None:
     ctx.unit('retried_functions', k)
 
 
+def _calls_named(node: ast.AST, attr: str) -> List[ast.Call]:
+    return [c for c in ast.walk(node) if isinstance(c, ast.Call) and isinstance(c.func, ast.Attribute) and c.func.attr == attr]
+
+
+def _norm_sql(s: str) -> str:
+    return ' '.join(s.upper().replace(';', ' ').split())
+
+
+def _str_alternatives(m: pf.Module, fn: pf.FuncDef, e: ast.expr, depth: int = 0) -> Optional[List[str]]:
+    """The string literals an expression can denote: a literal, a local / module constant holding one, either arm of a conditional expression."""
+    if depth > 4:
+        return None
+    e = _module_const(m, pf.resolve_expr(fn, e))
+    s_ = pf.const_str(e)
+    if s_ is not None:
+        return [s_]
+    if isinstance(e, ast.IfExp):
+        a, b = _str_alternatives(m, fn, e.body, depth + 1), _str_alternatives(m, fn, e.orelse, depth + 1)
+        return None if a is None or b is None else a + b
+    return None
+
+
 def r3(ctx: Ctx, m: pf.Module) -> None:
     fn = m.func('Transaction._aexit_1')
     cons = f'{DB}::Transaction._aexit_1'
     trs = [s for s in fn.body if isinstance(s, ast.Try)]
-    ctx.need(len(trs) == 1, '_aexit_1: try not found')
+    ctx.need(len(trs) == 1 and len(fn.args.args) >= 2, '_aexit_1: try not found')
     tr = trs[0]
-    ifs = [n for n in ast.walk(ast.Module(body=tr.body, type_ignores=[])) if isinstance(n, ast.If) and pf.nsrc(n.test) == 'exc_type']
-    ok = len(ifs) == 1 and [pf.nsrc(s) for s in ifs[0].body] == ['await self.conn.rollback()'] and [pf.nsrc(s) for s in ifs[0].orelse] == ['await self.conn.commit()']
-    ctx.check(ok, 'R3', cons + '::rollback or commit', 'on exit the transaction is not rolled back exactly when an exception is propagating and committed otherwise', m.path, fn.lineno)
-    fin = [pf.nsrc(s) for s in tr.finalbody]
-    ctx.check(any('_release_connection' in s for s in fin) and 'self.conn = None' in fin, 'R3', cons + '::release in finally', 'the connection is not released in `finally`', m.path, fn.lineno)
-    reraises = all(any(isinstance(x, ast.Raise) and x.exc is None for x in h.body) for h in tr.handlers)
-    ctx.check(reraises, 'R3', cons + '::errors propagate', 'a failing commit/rollback is swallowed (the caller would believe the transaction committed)', m.path, fn.lineno)
-    ae = m.func('Transaction._aexit')
-    ctx.check(any(pf.nsrc(n) == 'await asyncio.shield(self._aexit_1(exc_type))' for n in ast.walk(ae)), 'R3', f'{DB}::Transaction._aexit::shielded', 'commit/rollback is not shielded from cancellation', m.path, ae.lineno)
-    cm = m.func('TransactionAsyncContextManager.__aexit__')
-    ctx.check(any(pf.nsrc(n) == 'await self.tx._aexit(exc_type, exc_val, exc_tb)' for n in ast.walk(cm)), 'R3', f'{DB}::TransactionAsyncContextManager.__aexit__', 'the exception type is not forwarded to the transaction exit', m.path, cm.lineno)
-    ai = m.func('Transaction.async_init')
-    starts = [pf.const_str(c.args[0]) for c in ast.walk(ai) if isinstance(c, ast.Call) and pf.dotted(c.func) == 'cursor.execute' and c.args]
-    ctx.check(sorted(s for s in starts if s) == ['START TRANSACTION READ ONLY;', 'START TRANSACTION;'], 'R3', f'{DB}::Transaction.async_init::starts transaction', f'a new Transaction issues {starts}', m.path, ai.lineno)
-    cp = None
-    for c in ast.walk(m.func('Database.async_init')):
-        if isinstance(c, ast.Call) and pf.dotted(c.func) == 'create_database_pool':
-            cp = c
-    ok = cp is not None and any(k.arg == 'autocommit' and isinstance(k.value, ast.Constant) and k.value.value is False for k in cp.keywords)
-    ctx.check(ok, 'R3', f'{DB}::Database.async_init::autocommit off', 'the pool is not created with autocommit=False (statements of a failed attempt would persist)', m.path, 0)
+    exc_param = fn.args.args[1].arg
+    atoms = absdom.collect_test_atoms(tr.body)
+    ctx.need(len(atoms) <= 6, '_aexit_1: too many tests')
 
-
-def _txn_paths(body: List[N], state: int = 0) -> List[int]:
-    """Possible numbers of open transactions at the end of body, starting from `state`; -1 marks a violation (double close / close without open)."""
-    states = [state]
-    for st in body:
-        new: List[int] = []
-        for s in states:
-            if s < 0:
-                new.append(s)
-                continue
-            if st.kind == 'txn':
-                if st.what == 'START TRANSACTION':
-                    new.append(s + 1 if s == 0 else -1)
+    def exc_pol(a: ast.AST) -> Optional[bool]:
+        """True: a <=> an exception is propagating; False: the opposite; None: another test."""
+        cur, pol = a, True
+        for _ in range(4):
+            if isinstance(cur, ast.UnaryOp) and isinstance(cur.op, ast.Not):
+                cur, pol = cur.operand, not pol
+            elif isinstance(cur, ast.Compare) and len(cur.ops) == 1 and isinstance(cur.comparators[0], ast.Constant) and cur.comparators[0].value is None:
+                if isinstance(cur.ops[0], (ast.IsNot, ast.NotEq)):
+                    cur = cur.left
+                elif isinstance(cur.ops[0], (ast.Is, ast.Eq)):
+                    cur, pol = cur.left, not pol
                 else:
-                    new.append(s - 1 if s == 1 else -1)
-            elif st.kind == 'if':
-                for _, b in st.branches:
-                    new += _txn_paths(b, s)
-                new += _txn_paths(st.orelse, s) if st.orelse is not None else [s]
-            elif st.kind in ('loop', 'while', 'block'):
-                inner = _txn_paths(st.body, s)
-                new += inner if all(x == s for x in inner) else [-1]
+                    return None
+            elif isinstance(cur, ast.Name):
+                if cur.id == exc_param:
+                    return pol
+                d = pf.single_def(fn, cur.id)
+                if not isinstance(d, ast.expr):
+                    return None
+                cur = d
             else:
-                new.append(s)
-        states = sorted(set(new))
-    return states
+                return None
+        return None
+    pols = {absdom.atom_key(a): exc_pol(a) for a in atoms}
+    free = [k for k, v in pols.items() if v is None]
+    wrong = None
+    did = {True: set(), False: set()}
+    for exc in (True, False):
+        for val in absdom.valuations(free):
+            o = absdom.walk_block(tr.body, lambda a, exc=exc, val=val: (exc if pols[absdom.atom_key(a)] else not exc) if pols[absdom.atom_key(a)] is not None else val[absdom.atom_key(a)])
+            ops = {c.func.attr for s in o.executed for c in ast.walk(s) if isinstance(c, ast.Call) and isinstance(c.func, ast.Attribute) and c.func.attr in ('commit', 'rollback')}
+            did[exc] |= ops
+            if exc and 'commit' in ops and wrong is None:
+                wrong = f'with an exception propagating ({exc_param} set{", " + str(val) if val else ""}) the transaction is COMMITted'
+            if not exc and 'rollback' in ops and wrong is None:
+                wrong = f'without an exception ({exc_param} falsy{", " + str(val) if val else ""}) the transaction is rolled back'
+    if wrong is None and ('rollback' not in did[True] or 'commit' not in did[False]):
+        if not _calls_named(fn, 'rollback') and not _calls_named(fn, 'commit'):
+            _defer('_aexit_1: commit / rollback calls not found (moved into a helper?)')
+        else:
+            wrong = f'on exit with an exception the calls made are {sorted(did[True]) or "none"}, without one {sorted(did[False]) or "none"}'
+    if wrong is not None or ('rollback' in did[True] and 'commit' in did[False]):
+        ctx.check(wrong is None, 'R3', cons + '::rollback or commit', 'on exit the transaction is not rolled back exactly when an exception is propagating and committed otherwise: ' + (wrong or ''), m.path, fn.lineno)
+    # release in finally: the connection context manager (or a local holding it) is handed to some call inside `finally`
+    ccm = {'conn_context_manager'}
+    for n_, vals in pf.assignments(fn).items():
+        if any(isinstance(v, ast.Attribute) and v.attr == 'conn_context_manager' for v in vals):
+            ccm.add(n_)
+
+    def releases(stmts: List[ast.stmt]) -> bool:
+        for s_ in stmts:
+            for c in ast.walk(s_):
+                if isinstance(c, ast.Call) and any((isinstance(x, ast.Name) and x.id in ccm) or (isinstance(x, ast.Attribute) and x.attr == 'conn_context_manager') for a_ in c.args for x in ast.walk(a_)):
+                    return True
+        return False
+    if releases(tr.finalbody):
+        ctx.ok('R3', cons + '::release in finally', 'connection context manager handed to a release call in finally')
+    elif releases(fn.body):
+        ctx.bad('R3', cons + '::release in finally', 'the connection is not released in `finally`: when commit / rollback raises, the connection is never handed back', m.path, fn.lineno)
+    else:
+        _defer('_aexit_1: the release of the connection was not recognised')
+    swallow = None
+    for h in tr.handlers:
+        hat = absdom.collect_test_atoms(h.body)
+        if len(hat) > 6:
+            continue
+        for val in absdom.valuations([absdom.atom_key(a) for a in hat]):
+            o = absdom.walk_block(h.body, lambda a, val=val: val[absdom.atom_key(a)])
+            if o.kind != 'raise' and swallow is None:
+                swallow = f'`except {pf.nsrc(h.type) if h.type is not None else ""}` at line {h.lineno} ends in `{o.kind}`'
+    ctx.check(swallow is None, 'R3', cons + '::errors propagate', f'a failing commit/rollback is swallowed (the caller would believe the transaction committed): {swallow}', m.path, fn.lineno)
+    # shielded
+    ae = m.func('Transaction._aexit')
+    inner_calls = [c for c in ast.walk(ae) if isinstance(c, ast.Call) and isinstance(c.func, ast.Attribute) and c.func.attr == '_aexit_1']
+    par = m.parents()
+    if not inner_calls:
+        _defer('Transaction._aexit: the call of _aexit_1 was not found')
+    else:
+        def shielded(c: ast.Call) -> Optional[bool]:
+            p = par.get(c)
+            if isinstance(p, ast.Call) and (pf.dotted(p.func) or '').split('.')[-1] == 'shield' and c in p.args:
+                return True
+            if isinstance(p, ast.Await):
+                return False
+            if isinstance(p, (ast.Assign, ast.AnnAssign)):
+                tgt = p.targets[0] if isinstance(p, ast.Assign) else p.target
+                if isinstance(tgt, ast.Name):
+                    uses = [x for x in ast.walk(ae) if isinstance(x, ast.Name) and x.id == tgt.id and isinstance(x.ctx, ast.Load)]
+                    if uses and all(isinstance(par.get(u), ast.Call) and (pf.dotted(par[u].func) or '').split('.')[-1] == 'shield' for u in uses):
+                        return True
+            return None
+        vs = [shielded(c) for c in inner_calls]
+        if any(v is False for v in vs):
+            ctx.bad('R3', f'{DB}::Transaction._aexit::shielded', 'commit/rollback is not shielded from cancellation: `_aexit_1(..)` is awaited directly, a cancelled request abandons the transaction half-way', m.path, ae.lineno)
+        elif all(v for v in vs):
+            ctx.ok('R3', f'{DB}::Transaction._aexit::shielded', 'asyncio.shield(self._aexit_1(..))')
+        else:
+            _defer('Transaction._aexit: whether _aexit_1 runs under asyncio.shield is not decided')
+    cm = m.func('TransactionAsyncContextManager.__aexit__')
+    fw = [c for c in ast.walk(cm) if isinstance(c, ast.Call) and isinstance(c.func, ast.Attribute) and c.func.attr == '_aexit']
+    first = cm.args.args[1].arg if len(cm.args.args) > 1 else None
+    if len(fw) != 1 or first is None:
+        _defer('TransactionAsyncContextManager.__aexit__: the call of Transaction._aexit was not found')
+    else:
+        a0 = fw[0].args[0] if fw[0].args else next((k.value for k in fw[0].keywords if k.arg == 'exc_type'), None)
+        ctx.check(isinstance(a0, ast.Name) and a0.id == first, 'R3', f'{DB}::TransactionAsyncContextManager.__aexit__', f'the exception type is not forwarded to the transaction exit (`{pf.nsrc(fw[0])}`): '
+                  'a failed block would be committed', m.path, cm.lineno)
+    ai = m.func('Transaction.async_init')
+    starts = []
+    for c in ast.walk(ai):
+        if isinstance(c, ast.Call) and isinstance(c.func, ast.Attribute) and c.func.attr in cf.EXEC_ATTRS and c.args:
+            for s_ in _str_alternatives(m, ai, c.args[0]) or []:
+                starts.append(_norm_sql(s_))
+    want = sorted(['START TRANSACTION READ ONLY', 'START TRANSACTION'])
+    if not starts:
+        _defer('Transaction.async_init: no literal statement found')
+    else:
+        ctx.check(sorted(set(starts)) == want, 'R3', f'{DB}::Transaction.async_init::starts transaction', f'a new Transaction issues {starts}', m.path, ai.lineno)
+    di = m.func('Database.async_init')
+    cp = [c for c in ast.walk(di) if isinstance(c, ast.Call) and (pf.dotted(c.func) or '').split('.')[-1] == 'create_database_pool']
+    if len(cp) != 1:
+        _defer('Database.async_init: the create_database_pool call was not found')
+    else:
+        kws = [k for k in cp[0].keywords if k.arg == 'autocommit']
+        val: Optional[ast.expr] = kws[0].value if kws else None
+        if val is None and not any(k.arg is None for k in cp[0].keywords):
+            # the default of the parameter
+            try:
+                pool_fn = m.func('create_database_pool')
+                names = [a.arg for a in pool_fn.args.args]
+                if 'autocommit' in names:
+                    i = names.index('autocommit') - (len(names) - len(pool_fn.args.defaults))
+                    if len(cp[0].args) > names.index('autocommit'):
+                        val = cp[0].args[names.index('autocommit')]
+                    elif i >= 0:
+                        val = pool_fn.args.defaults[i]
+            except AnalysisError:
+                val = None
+        val = pf.resolve_expr(di, val) if val is not None else None
+        if isinstance(val, ast.Constant) and isinstance(val.value, bool):
+            ctx.check(val.value is False, 'R3', f'{DB}::Database.async_init::autocommit off', 'the pool is not created with autocommit=False (statements of a failed attempt would persist)', m.path, cp[0].lineno)
+        else:
+            _defer('Database.async_init: the value of autocommit is not a literal')
+
+
+_Path = Tuple[Tuple[str, bool], ...]          # the IF decisions taken: (canonical condition text, polarity)
+_MAX_WITNESSES = 48
+
+
+class _TxnStates:
+    """number of open transactions (-1 = closed twice / opened twice) -> some decision paths that lead there"""
+
+    def __init__(self) -> None:
+        self.d: Dict[int, List[_Path]] = {}
+
+    def add(self, s: int, path: _Path) -> None:
+        w = self.d.setdefault(s, [])
+        if len(w) < _MAX_WITNESSES and path not in w:
+            w.append(path)
+
+    def merge(self, other: '_TxnStates') -> None:
+        for s, ps in other.d.items():
+            for p in ps:
+                self.add(s, p)
+
+    def items(self):
+        return [(s, p) for s, ps in sorted(self.d.items()) for p in ps]
+
+
+def _is_terminal_error(st: N) -> bool:
+    # SIGNAL / RESIGNAL end the path with an error: what the caller's connection does with the open transaction is not a fact of this routine
+    return st.kind in ('signal', 'resignal') or (st.kind == 'other' and str(getattr(st, 'text', '')).lstrip().upper().startswith(('RESIGNAL', 'SIGNAL')))
+
+
+def _txn_exec(body: List[N], entry: _TxnStates, routine: str) -> Tuple[_TxnStates, Dict[Tuple[str, str], _TxnStates]]:
+    """Abstract execution of a statement list over the number of open transactions.  Returns (states that fall through the end of the
+    list, states that leave it early keyed by ('leave'|'iterate', label)).  RETURN / LEAVE of the routine's own outermost label end the
+    routine; the caller of this function adds them to the final states."""
+    cur = entry
+    exits: Dict[Tuple[str, str], _TxnStates] = {}
+
+    def out(kind: str, label: str, sts: _TxnStates) -> None:
+        exits.setdefault((kind, (label or '').lower()), _TxnStates()).merge(sts)
+
+    for st in body:
+        if not cur.d:
+            break
+        nxt = _TxnStates()
+        if st.kind == 'txn':
+            for s, p in cur.items():
+                if s < 0:
+                    nxt.add(s, p)
+                elif st.what == 'START TRANSACTION':
+                    nxt.add(s + 1 if s == 0 else -1, p)
+                else:
+                    nxt.add(s - 1 if s == 1 else -1, p)
+        elif st.kind == 'if':
+            neg: _Path = ()
+            for c, b in st.branches:
+                sub = _TxnStates()
+                for s, p in cur.items():
+                    sub.add(s, p + neg + ((text(c), True),))
+                f, ex = _txn_exec(b, sub, routine)
+                nxt.merge(f)
+                for (k, lab), sts in ex.items():
+                    out(k, lab, sts)
+                neg = neg + ((text(c), False),)
+            sub = _TxnStates()
+            for s, p in cur.items():
+                sub.add(s, p + neg)
+            if st.orelse is not None:
+                f, ex = _txn_exec(st.orelse, sub, routine)
+                nxt.merge(f)
+                for (k, lab), sts in ex.items():
+                    out(k, lab, sts)
+            else:
+                nxt.merge(sub)
+        elif st.kind == 'block':
+            f, ex = _txn_exec(st.body, cur, routine)
+            nxt.merge(f)
+            lab = (getattr(st, 'label', None) or '').lower()
+            for (k, l2), sts in ex.items():
+                if k == 'leave' and lab and l2 == lab:
+                    nxt.merge(sts)
+                else:
+                    out(k, l2, sts)
+        elif st.kind in ('loop', 'while', 'repeat'):
+            lab = (getattr(st, 'label', None) or '').lower()
+            for s, p in cur.items():
+                one = _TxnStates()
+                one.add(s, p)
+                f, ex = _txn_exec(st.body, one, routine)
+                again = [s2 for s2, _ in f.items()] + [s2 for (k, l2), sts in ex.items() if k == 'iterate' and lab and l2 == lab for s2, _ in sts.items()]
+                if any(s2 != s for s2 in again):
+                    # the next iteration would start with another number of open transactions: needs a loop invariant we do not compute
+                    raise AnalysisError(f'{routine}: a loop changes the number of open transactions from one iteration to the next; transaction balance through this loop is not decided')
+                if st.kind != 'loop':
+                    nxt.add(s, p)          # WHILE / REPEAT end when their condition says so
+                elif not any(k == 'leave' and lab and l2 == lab for (k, l2) in ex):
+                    nxt.add(s, p)          # LOOP left by a handler / not at all: as before, continue with the loop-invariant state
+                for (k, l2), sts in ex.items():
+                    if lab and l2 == lab:
+                        if k == 'leave':
+                            nxt.merge(sts)
+                    else:
+                        out(k, l2, sts)
+        elif st.kind == 'leave':
+            out('leave', st.label, cur)
+            cur = _TxnStates()
+            continue
+        elif st.kind == 'iterate':
+            out('iterate', st.label, cur)
+            cur = _TxnStates()
+            continue
+        elif st.kind == 'return':
+            out('leave', '<routine>', cur)
+            cur = _TxnStates()
+            continue
+        elif _is_terminal_error(st):
+            cur = _TxnStates()
+            continue
+        else:
+            nxt = cur
+        cur = nxt
+    return cur, exits
+
+
+def _feasible(path: _Path) -> bool:
+    """No condition is decided both ways on the path (the analysis is path-insensitive; a failing path that takes `IF c` and later the
+    ELSE of the same `c` is not evidence)."""
+    seen: Dict[str, bool] = {}
+    for c, pol in path:
+        if seen.setdefault(c, pol) != pol:
+            return False
+    return True
+
+
+def _txn_paths(body: List[N], routine: str = '?') -> Tuple[List[int], List[int]]:
+    """(numbers of open transactions possible when the routine ends; the subset reached on a path without contradictory decisions).
+    -1 marks a double close / close without open / nested START.  A LEAVE whose label is not a block or loop inside the body can only
+    name the routine's own outermost block (MySQL rejects unknown labels): it ends the routine."""
+    entry = _TxnStates()
+    entry.add(0, ())
+    fall, exits = _txn_exec(body, entry, routine)
+    final = _TxnStates()
+    final.merge(fall)
+    for (k, lab), sts in exits.items():
+        if k == 'leave':
+            final.merge(sts)
+        else:
+            raise AnalysisError(f'{routine}: ITERATE {lab} outside a loop of that label')
+    ends = sorted(final.d)
+    feasible = sorted(s for s, ps in final.d.items() if any(_feasible(p) for p in ps))
+    return ends, feasible
+
+
+def _is_open_transaction(m: pf.Module, fn: Optional[pf.FuncDef], receiver: str) -> bool:
+    """Does `receiver` name an already open Transaction inside fn?  A parameter of a function decorated with @transaction(..) (its first
+    one) or annotated Transaction, the target of `async with <x>.start(..) as t`, or - by the repository's convention - a plain name `tx`."""
+    last = receiver.split('.')[-1]
+    if '.' in receiver:
+        return last == 'tx'
+    for f in ([fn] if fn is not None else []):
+        cur: Optional[ast.AST] = f
+        par = m.parents()
+        while cur is not None:
+            if isinstance(cur, (ast.FunctionDef, ast.AsyncFunctionDef)):
+                params = cur.args.posonlyargs + cur.args.args + cur.args.kwonlyargs
+                for i_, a in enumerate(params):
+                    if a.arg != receiver:
+                        continue
+                    if a.annotation is not None and 'Transaction' in pf.nsrc(a.annotation):
+                        return True
+                    decos = {((pf.dotted(d.func) if isinstance(d, ast.Call) else pf.dotted(d)) or '').split('.')[-1] for d in cur.decorator_list}
+                    if i_ == 0 and 'transaction' in decos:
+                        return True
+                for w in ast.walk(cur):
+                    if isinstance(w, (ast.AsyncWith, ast.With)):
+                        for it in w.items:
+                            if isinstance(it.optional_vars, ast.Name) and it.optional_vars.id == receiver and isinstance(it.context_expr, ast.Call) \
+                                    and isinstance(it.context_expr.func, ast.Attribute) and it.context_expr.func.attr == 'start':
+                                return True
+            cur = par.get(cur)
+    return last == 'tx'
 
 
 def r4(ctx: Ctx) -> None:
@@ -247,11 +778,15 @@ def r4(ctx: Ctx) -> None:
         if any(st.kind == 'txn' and st.what == 'START TRANSACTION' for st in sts):
             starts.add(name)
         if r.kind == 'procedure' and has:
-            ends = _txn_paths(r.ast.body)
-            ctx.check(ends == [0], 'R4', f'{r.file}::{name}::balanced transaction', f'some path through {name} leaves {ends} transactions open / closes twice: every path must end the transaction it started exactly once',
+            ends, feasible = _txn_paths(r.ast.body, name)
+            bad_ends = [s for s in feasible if s != 0]
+            # a failing end state reached only on paths that decide one condition both ways is not evidence: decline
+            ctx.need(bad_ends or ends == [0] or not ends, f'{name}: the only paths that leave {[s for s in ends if s != 0]} transactions open / close twice decide the same condition both ways; '
+                     'transaction balance is not decided path-sensitively')
+            ctx.check(not bad_ends, 'R4', f'sql::{name}::balanced transaction', f'some path through {name} leaves {ends} transactions open / closes twice: every path must end the transaction it started exactly once',
                       r.file, r.line)
         if r.kind in ('trigger', 'function'):
-            ctx.check(not has, 'R4', f'{r.file}::{name}::no transaction statements', f'{r.kind} {name} contains transaction statements', r.file, r.line)
+            ctx.check(not has, 'R4', f'sql::{name}::no transaction statements', f'{r.kind} {name} contains transaction statements', r.file, r.line)
     # procedures called from procedures must not touch the transaction
     for name, r in prog.routines.items():
         for st in sf.all_statements(r.ast.body):
@@ -259,7 +794,7 @@ def r4(ctx: Ctx) -> None:
                 callee = st.name
                 if callee in prog.routines:
                     has = any(x.kind == 'txn' for x in sf.all_statements(prog.routines[callee].ast.body))
-                    ctx.check(not has, 'R4', f'{r.file}::{name}::CALL {callee}', f'{callee} is called from inside {name}\'s transaction but issues transaction statements itself (the outer transaction would be '
+                    ctx.check(not has, 'R4', f'sql::{name}::CALL {callee}', f'{callee} is called from inside {name}\'s transaction but issues transaction statements itself (the outer transaction would be '
                               'committed half way)', r.file, r.line_of(st))
     # Python: CALL on an open Transaction
     n_tx = n_db = 0
@@ -275,12 +810,19 @@ def r4(ctx: Ctx) -> None:
                     continue
                 if st.name not in prog.routines:
                     continue
-                if e.receiver.split('.')[-1] == 'tx':
+                if _is_open_transaction(m, e.fn, e.receiver):
                     n_tx += 1
                     if st.name in starts:
-                        # no write on tx before it in the same function
-                        earlier = [x for x in sf.embedded_in(m) if x.fn is e.fn and x.lineno < e.lineno and x.receiver.split('.')[-1] == 'tx' and x.sql_text is not None
-                                   and any(sf.written_tables(s2) or s2.kind == 'call' for s2 in x.stmts())]
+                        # no write on the same transaction can have run before it in the same function
+                        g = pf.cfg(e.fn) if e.fn is not None else None
+                        here = g.node_of(e.call) if g is not None else []
+                        earlier = []
+                        for x in sf.embedded_in(m):
+                            if x.fn is not e.fn or x is e or x.receiver != e.receiver or x.sql_text is None or not any(sf.written_tables(s2) or s2.kind == 'call' for s2 in x.stmts()):
+                                continue
+                            xn = g.node_of(x.call) if g is not None else []
+                            if xn and here and any(h_.id in g.reachable_from(a_) for a_ in xn for h_ in here):
+                                earlier.append(x)
                         ctx.check(not earlier, 'R4', f'{rel}::{e.qual}::tx CALL {st.name}', f'CALL {st.name} (which issues START TRANSACTION, implicitly committing) runs on an open Transaction after '
                                   f'the write at line {earlier[0].lineno if earlier else 0}: that write is committed even if the Python transaction later rolls back', m.path, e.lineno)
                     else:
@@ -421,27 +963,39 @@ def r5(ctx: Ctx, m: pf.Module) -> None:
         raise AnalysisError(f'{flow.label(k)}: `{pf.nsrc(c)[:100]}` hands a cursor / statement-executing callable to `{pf.nsrc(c.func)}`, which is not defined in {DB}')
 
 
+def _exclusive(m: pf.Module, a: ast.AST, b: ast.AST, stop: ast.AST) -> bool:
+    """a and b sit in different arms of one `if` (so at most one of them runs per call)."""
+    par = m.parents()
+
+    def arms(x: ast.AST) -> List[Tuple[int, str]]:
+        out = []
+        cur = x
+        while cur is not stop and cur in par:
+            p = par[cur]
+            if isinstance(p, ast.If):
+                if any(cur is s_ for s_ in p.body):
+                    out.append((id(p), 'body'))
+                elif any(cur is s_ for s_ in p.orelse):
+                    out.append((id(p), 'orelse'))
+            cur = p
+        return out
+    aa, bb = dict(arms(a)), dict(arms(b))
+    return any(k in bb and bb[k] != v for k, v in aa.items())
+
+
 def r6(ctx: Ctx, m: pf.Module) -> None:
-    dbc = m.cls('Database')
-    meths = {f.name: f for f in dbc.body if isinstance(f, (ast.AsyncFunctionDef, ast.FunctionDef))}
-    opening: Set[str] = set()
+    meths, opening = _db_opening_methods(m)
 
     def opens_of(fn) -> List[Tuple[ast.AST, str]]:
         out: List[Tuple[ast.AST, str]] = []
+        me = fn.args.args[0].arg if fn.args.args else 'self'
         for c in pf.walk_shallow(fn):
-            if isinstance(c, ast.Call) and isinstance(c.func, ast.Attribute) and pf.nsrc(c.func.value) == 'self':
+            if isinstance(c, ast.Call) and isinstance(c.func, ast.Attribute) and isinstance(c.func.value, ast.Name) and c.func.value.id == me:
                 if c.func.attr == 'start':
                     out.append((c, 'self.start()'))
                 elif c.func.attr in opening:
                     out.append((c, f'self.{c.func.attr}()'))
         return out
-    changed = True
-    while changed:
-        changed = False
-        for n, f in meths.items():
-            if n not in opening and n != 'start' and opens_of(f):
-                opening.add(n)
-                changed = True
     ctx.need(len(opening) >= 9, f'Database: only {sorted(opening)} open transactions')
     for n in sorted(opening):
         f = meths[n]
@@ -457,17 +1011,29 @@ def r6(ctx: Ctx, m: pf.Module) -> None:
                     in_loop.append((c, what))
                     break
                 x = p
-        ctx.check(len(ops) == 1 and not in_loop, 'R6', cons + '::one transaction per operation', f'{n} opens {len(ops)} transactions per call ({[w for _, w in ops]}{", in a loop" if in_loop else ""}): a failure between two of '
+        # two openings count as two transactions per call only when both can run in one call
+        together = [(a, b) for i_, (a, _) in enumerate(ops) for (b, _) in ops[i_ + 1:] if not _exclusive(m, a, b, f)]
+        ctx.check(not together and not in_loop, 'R6', cons + '::one transaction per operation', f'{n} opens {len(ops)} transactions per call ({[w for _, w in ops]}{", in a loop" if in_loop else ""}): a failure between two of '
                   'them leaves the earlier ones committed -- the operation is no longer all-or-nothing', m.path, f.lineno)
     em = meths.get('execute_many')
     ctx.need(em is not None, 'Database.execute_many not found')
-    fwd = [c for c in ast.walk(em) if isinstance(c, ast.Call) and pf.nsrc(c.func) == 'tx.execute_many']
+    me = em.args.args[0].arg if em.args.args else 'self'
+    fwd = [c for c in ast.walk(em) if isinstance(c, ast.Call) and isinstance(c.func, ast.Attribute) and c.func.attr == 'execute_many' and not (isinstance(c.func.value, ast.Name) and c.func.value.id == me)]
     arr = em.args.args[2].arg if len(em.args.args) > 2 else None
-    ok = len(fwd) == 1 and len(fwd[0].args) >= 2 and pf.nsrc(fwd[0].args[1]) == arr
+    cons = f'{DB}::Database.execute_many::whole array in one transaction'
     if not any(w == 'self.start()' for _, w in opens_of(em)):
-        ctx.ok('R6', f'{DB}::Database.execute_many::whole array in one transaction', 'delegates to another single-transaction method (covered by one transaction per operation)')
+        ctx.ok('R6', cons, 'delegates to another single-transaction method (covered by one transaction per operation)')
+    elif len(fwd) == 1 and arr is not None:
+        a1 = fwd[0].args[1] if len(fwd[0].args) >= 2 else next((k.value for k in fwd[0].keywords if k.arg in ('args_array', 'args')), None)
+        a1 = pf.resolve_expr(em, a1) if a1 is not None else None
+        if isinstance(a1, ast.Name) and a1.id == arr:
+            ctx.ok('R6', cons, f'{pf.nsrc(fwd[0])}')
+        elif a1 is not None and arr in pf.names_in(a1) and isinstance(a1, (ast.Subscript, ast.ListComp, ast.GeneratorExp)):
+            ctx.bad('R6', cons, f'Database.execute_many does not hand its whole argument array to a single Transaction.execute_many (`{pf.nsrc(fwd[0])[:90]}` passes a part of it)', m.path, em.lineno)
+        else:
+            _defer('Database.execute_many: what is forwarded to Transaction.execute_many is not recognised')
     else:
-        ctx.check(ok, 'R6', f'{DB}::Database.execute_many::whole array in one transaction', 'Database.execute_many does not hand its whole argument array to a single Transaction.execute_many', m.path, em.lineno)
+        _defer('Database.execute_many: the forwarding call to Transaction.execute_many was not found')
 
 
 # --------------------------------------------------------------------------------------
@@ -924,11 +1490,15 @@ def run(ctx: Ctx) -> None:
     ctx.rule('R7', 'DB layer: every handler between the retry wrapper and the statements preserves the retryability of the caught error (abstract domain class x error code, predicate helpers inlined); no fabricated transient errors', 3)
     ctx.rule('R8', 'application code inside a retried transaction: handlers neither turn a transient error into a non-retryable one nor the reverse, nor swallow it', 5)
     m = pf.load(DB)
-    r1(ctx, m)
-    r2(ctx, m)
-    r3(ctx, m)
-    r4(ctx)
-    r5(ctx, m)
-    r6(ctx, m)
-    r7(ctx, m)
-    r8(ctx, m)
+    del _DECLINES[:]
+    # every rule runs even when an earlier one meets a shape it cannot decide; a violation established with positive evidence is reported
+    # (exit 1), otherwise the undecided constructs end the run as ANALYSIS-ERROR (exit 2)
+    for rule in (lambda: r1(ctx, m), lambda: r2(ctx, m), lambda: r3(ctx, m), lambda: r4(ctx), lambda: r5(ctx, m), lambda: r6(ctx, m), lambda: r7(ctx, m), lambda: r8(ctx, m)):
+        try:
+            rule()
+        except AnchorRemoved:
+            raise
+        except AnalysisError as ex:
+            _defer(str(ex))
+    if _DECLINES:
+        raise AnalysisError(' || '.join(_DECLINES))
